@@ -208,16 +208,19 @@ class World(HWorld):
             return nodes, claimed, "msg-alter"
         if kind == "ins":
             src = f[1]
-            if src == "key":
-                extra = HexaryTrie(self.db, root).get_proof(unhx(f[2]))
-            elif src == "old":
-                oroot = self.order[f[2] % len(self.order)]
-                extra = HexaryTrie(self.db, oroot).get_proof(key)
-                if f[3] and n:
-                    # replace: the same position of the genuine proof is withheld
-                    del nodes[f[3] % n]
-            else:
-                extra = self.foreign.get_proof(key if f[2] is None else unhx(f[2]))
+            try:
+                if src == "key":
+                    extra = HexaryTrie(self.db, root).get_proof(unhx(f[2]))
+                elif src == "old":
+                    oroot = self.order[f[2] % len(self.order)]
+                    extra = HexaryTrie(self.db, oroot).get_proof(key)
+                else:
+                    extra = self.foreign.get_proof(key if f[2] is None else unhx(f[2]))
+            except Exception as e:
+                self.viol("proof-incomplete", f"get_proof on a complete database raised {e!r} (while the channel collected nodes to substitute)")
+            if src == "old" and f[3] and n:
+                # replace: the same position of the genuine proof is withheld
+                del nodes[f[3] % n]
             pos = f[-1] % (len(nodes) + 1)
             nodes = nodes[:pos] + list(extra) + nodes[pos:]
             return nodes, claimed, "msg-substitute"
